@@ -54,6 +54,9 @@ type Explorer struct {
 	Reached      map[string]int
 
 	maxPaths int
+
+	dom        map[string]*byteDom
+	DomDecided int
 }
 
 func NewExplorer(s *Solver) *Explorer {
@@ -65,6 +68,7 @@ func (e *Explorer) beginRun() {
 	e.pc = e.pc[:0]
 	e.model = Model{}
 	e.modelOK = true // empty pc: any assignment works; missing vars evaluate as 0
+	e.dom = nil
 	e.solver.Reset()
 }
 
@@ -90,6 +94,7 @@ func (e *Explorer) addPC(c *Term) {
 		return
 	}
 	e.pc = append(e.pc, c)
+	e.domAdd(c)
 	e.solver.Assert(c)
 }
 
@@ -104,6 +109,9 @@ func (e *Explorer) evalModel(c *Term) (bool, bool) {
 func (e *Explorer) check(c *Term) (string, Model) {
 	if c.IsFalse() {
 		return "unsat", nil
+	}
+	if res, m, ok := e.domCheck(c); ok {
+		return res, m
 	}
 	return e.solver.Check(c, true)
 }
